@@ -122,24 +122,18 @@ def AlwaysContiguous (isn : Nat) (segs : List Seg) : Bool := tilesFrom isn 0 seg
 
 end Huginn.HttpFlow.Spec
 
-namespace Huginn.KF.C09
-open Huginn.HttpFlow Huginn.HttpFlow.Spec
+namespace Huginn.HttpFlow.Spec
+open Huginn.HttpFlow
 
-/-- a direction's segments cross the 2^32 boundary: sorting by the raw `u32` misorders them -/
-def seqWrap (c : Conn) (ds : List DataPkt) : Prop :=
-  ¬ NoWrap c.isnC (segsOf true ds) ∨ ¬ NoWrap c.isnS (segsOf false ds)
-instance (c ds) : Decidable (seqWrap c ds) := by unfold seqWrap; exact inferInstance
+/-- the segments of a direction are pieces of one byte stream `S` (first byte = sequence number
+`isn + 1`): retransmissions and overlaps carry the same bytes. This is the statement's domain —
+"every division of those bytes into TCP segments". -/
+def Consistent (isn : Nat) (S : Bytes) (segs : List Seg) : Prop :=
+  S.length < M32 ∧ ∀ s ∈ segs, rel isn s.seq + s.data.length ≤ S.length ∧
+    s.data = (S.drop (rel isn s.seq)).take s.data.length
 
-/-- retransmitted / overlapping segments: the code concatenates both copies -/
-def duplicateSegment (c : Conn) (ds : List DataPkt) : Prop :=
-  hasOverlap c.isnC (segsOf true ds) = true ∨ hasOverlap c.isnS (segsOf false ds) = true
-instance (c ds) : Decidable (duplicateSegment c ds) := by unfold duplicateSegment; exact inferInstance
+end Huginn.HttpFlow.Spec
 
-/-- some segment arrives before an earlier part of the stream (a gap exists at that moment): the
-code concatenates what it has, without a contiguity check -/
-def gapAssembly (c : Conn) (ds : List DataPkt) : Prop :=
-  (hasOverlap c.isnC (segsOf true ds) = false ∧ AlwaysContiguous c.isnC (segsOf true ds) = false) ∨
-  (hasOverlap c.isnS (segsOf false ds) = false ∧ AlwaysContiguous c.isnS (segsOf false ds) = false)
-instance (c ds) : Decidable (gapAssembly c ds) := by unfold gapAssembly; exact inferInstance
-
-end Huginn.KF.C09
+/-! No known-finding class is open: sequence wrap, gap assembly and duplicated segments were repaired
+in /repo (fixes/C09-1) and their predicates deleted. `NoWrap`, `hasOverlap`, `AlwaysContiguous` remain
+as input features (the driver labels cases with them so that coverage of those inputs stays a gate). -/
